@@ -14,6 +14,9 @@
 (*   resorted   (2-D, one array) what sort_points_to_form_continuous_line(..,           *)
 (*              search_for_optimal_start=True) returns for the returned cells taken in  *)
 (*              raster order; <<>> otherwise                                            *)
+(*   freshsame  for a contour on a model object with a history (earlier contour, then an   *)
+(*              in-place change): everything equals the contour of a freshly constructed   *)
+(*              model with the current parameters (TRUE without history)                   *)
 (* kind = "sort": one call of sort_points_to_form_continuous_line                       *)
 (*   inp, out   input / output points as <<x, y>> in units of 10^-6 (inputs are         *)
 (*              generated on that lattice, so the projection is exact)                  *)
@@ -71,7 +74,7 @@ Clauses(r) ==
   IF r.exc # "" THEN << <<"UnexpectedException", FALSE>> >>
   ELSE IF r.kind = "sort" THEN JudgeSort(r)
   ELSE IF Len(r.R) # NCells(r.shape) THEN << <<"ArrayShape", FALSE>> >>
-  ELSE JudgeHdc(r)
+  ELSE JudgeHdc(r) \o << <<"EqualsFreshModel", r.freshsame>> >>
 
 Verdict(r) == Failing(Clauses(r))
 
